@@ -334,11 +334,20 @@ type c16skipLog struct {
 	logger.LoggingClient
 	mu   sync.Mutex
 	seen []uint32
+	est  int // the "total estimated network probes" the run logged (-1: no such line seen)
 }
+
+var c16estRe = regexp.MustCompile(`total estimated network probes: (\d+)`)
 
 var c16addrRe = regexp.MustCompile(`(\d+)\.(\d+)\.(\d+)\.(\d+):\d+`)
 
 func (l *c16skipLog) Debug(msg string, args ...interface{}) {
+	if m := c16estRe.FindStringSubmatch(msg); m != nil {
+		n, _ := strconv.Atoi(m[1])
+		l.mu.Lock()
+		l.est = n
+		l.mu.Unlock()
+	}
 	if strings.Contains(msg, "Skip") {
 		if m := c16addrRe.FindStringSubmatch(msg); m != nil {
 			var a uint32
@@ -353,6 +362,9 @@ func (l *c16skipLog) Debug(msg string, args ...interface{}) {
 	}
 }
 func (l *c16skipLog) Debugf(msg string, args ...interface{}) { l.Debug(fmt.Sprintf(msg, args...)) }
+
+// the estimate the last c16autoSkip run logged (-1: none read)
+var c16lastEst = -1
 
 // c16autoSkip runs the real autoDiscover over networks anywhere in the IPv4 space, all of whose hosts are registered
 // devices in state Up; returns the sorted multiset of addresses the workers met (and skipped), "inconclusive" when no
@@ -378,7 +390,8 @@ func c16autoSkip(nets [][2]uint32, deadline time.Duration) string {
 		}
 	}
 	oldSvc, oldLc := driver.svc, driver.lc
-	lg := &c16skipLog{LoggingClient: oldLc}
+	lg := &c16skipLog{LoggingClient: oldLc, est: -1}
+	c16lastEst = -1
 	driver.svc, driver.lc = c17newSvc(devs), lg
 	defer func() { driver.svc, driver.lc = oldSvc, oldLc }()
 	var subnets []string
@@ -398,6 +411,7 @@ func c16autoSkip(nets [][2]uint32, deadline time.Duration) string {
 	}
 	lg.mu.Lock()
 	defer lg.mu.Unlock()
+	c16lastEst = lg.est
 	if len(lg.seen) == 0 {
 		return "inconclusive"
 	}
@@ -454,16 +468,30 @@ func TestVerifC16(t *testing.T) {
 		{{0xC0A80164, 31}, {0xAC100000, 29}, {0x08080800, 30}}, // 192.168.1.100/31, 172.16.0.0/29, 8.8.8.0/30
 		{{0x00000000, 29}, {0xFFFFFFF8, 29}, {0xE0000000, 30}}, // 0.0.0.0/29, 255.255.255.248/29, 224.0.0.0/30
 		{{0x00000001, 30}, {0x64400000, 30}},                   // 0.0.0.1/30 (unaligned), 100.64.0.0/30
+		// one small network alone, every host a registered device: the estimate sizes the worker pool and the channel
+		{{0xC0A80A05, 32}}, {{0xC0A80A04, 31}}, {{0x0A010100, 30}}, {{0xAC100010, 29}},
 	} {
 		req := "auto"
 		for _, n := range nets {
 			req += fmt.Sprintf(" %d/%d", n[0], n[1])
 		}
-		obs := c16autoSkip(nets, 30*time.Second)
+		dl := 30 * time.Second
+		if len(nets) == 1 {
+			dl = 8 * time.Second
+		}
+		obs := c16autoSkip(nets, dl)
 		if obs == "inconclusive" {
 			continue
 		}
 		o.line(req, obs)
+		if len(nets) == 1 && c16lastEst >= 0 && obs != "blocked" {
+			// the probe-count estimate of the run (as logged) against the addresses the workers were handed
+			n := 0
+			if obs != "[]" {
+				n = len(strings.Fields(obs))
+			}
+			o.line(fmt.Sprintf("estimate-check %d %d %d %d", nets[0][0], nets[0][1], n, c16lastEst), "accept")
+		}
 	}
 
 	// base addresses: corners, x.y.z.255, 255.255.255.x, octet crossings, unaligned, then random from the seed
